@@ -1,3 +1,4 @@
+import Tickit.Model.Width
 /-
   The VT reference interpreter (DESIGN.md Appendix C): our reading of DEC STD 070 / xterm ctlseqs for the
   sequences the xterm driver of libtickit emits.  It is the *specification* of "VT-conformant" in C09.
@@ -212,14 +213,10 @@ def wrap (vt : VTState) : VTState :=
 
 end VTState
 
-/-- Column width of a code point as the terminal sees it (assumed to agree with the library's tables; only
-    width-1 text is covered by the theorems). -/
-def width (cp : Nat) : Nat :=
-  if (0x300 ≤ cp ∧ cp ≤ 0x36f) ∨ cp = 0x200b ∨ (0xfe00 ≤ cp ∧ cp ≤ 0xfe0f) then 0
-  else if (0x1100 ≤ cp ∧ cp ≤ 0x115f) ∨ (0x2e80 ≤ cp ∧ cp ≤ 0xa4cf) ∨ (0xac00 ≤ cp ∧ cp ≤ 0xd7a3) ∨
-          (0xf900 ≤ cp ∧ cp ≤ 0xfaff) ∨ (0xfe30 ≤ cp ∧ cp ≤ 0xfe6f) ∨ (0xff00 ≤ cp ∧ cp ≤ 0xff60) ∨
-          (0xffe0 ≤ cp ∧ cp ≤ 0xffe6) ∨ (0x1f300 ≤ cp ∧ cp ≤ 0x1f64f) ∨ (0x20000 ≤ cp ∧ cp ≤ 0x3fffd) then 2
-  else 1
+/-- Column width of a code point as the terminal sees it: the library's own `tickit_utf8_wcwidth`
+    (Model/Width.lean, tables regenerated from the source) — the property assumes that the terminal and the library
+    agree on widths.  Controls (`-1`) take no column. -/
+def width (cp : Nat) : Nat := (Width.wcwidth cp).toNat
 
 namespace VTState
 
@@ -416,15 +413,16 @@ def VTState.csiByte (vt : VTState) (a : CsiAcc) (b : UInt8) : VTState :=
 
 /-- One byte in the ground state. -/
 def VTState.groundByte (vt : VTState) (b : UInt8) : VTState :=
-  if b = 0x1b then { vt with ps := .esc }
-  else if b = 0x0d then { vt with col := vt.left, pendingWrap := false }
-  else if b = 0x0a ∨ b = 0x0b ∨ b = 0x0c then vt.lineFeed
-  else if b = 0x08 then vt.moveTo vt.row (vt.col - 1)
-  else if b < 0x20 ∨ b = 0x7f then vt
-  else if b < 0x80 then vt.putGlyph b.toNat
-  else if 0xc2 ≤ b ∧ b ≤ 0xdf then { vt with ps := .utf8 1 (b.toNat - 0xc0) }
-  else if 0xe0 ≤ b ∧ b ≤ 0xef then { vt with ps := .utf8 2 (b.toNat - 0xe0) }
-  else if 0xf0 ≤ b ∧ b ≤ 0xf4 then { vt with ps := .utf8 3 (b.toNat - 0xf0) }
+  let n := b.toNat
+  if n = 0x1b then { vt with ps := .esc }
+  else if n = 0x0d then { vt with col := vt.left, pendingWrap := false }
+  else if n = 0x0a ∨ n = 0x0b ∨ n = 0x0c then vt.lineFeed
+  else if n = 0x08 then vt.moveTo vt.row (vt.col - 1)
+  else if n < 0x20 ∨ n = 0x7f then vt
+  else if n < 0x80 then vt.putGlyph n
+  else if 0xc2 ≤ n ∧ n ≤ 0xdf then { vt with ps := .utf8 1 (n - 0xc0) }
+  else if 0xe0 ≤ n ∧ n ≤ 0xef then { vt with ps := .utf8 2 (n - 0xe0) }
+  else if 0xf0 ≤ n ∧ n ≤ 0xf4 then { vt with ps := .utf8 3 (n - 0xf0) }
   else vt.putGlyph 0xfffd
 
 /-- The tokenizer / executor: one byte. -/
@@ -456,7 +454,7 @@ def step (vt : VTState) (b : UInt8) : VTState :=
     else if b = 0x5b then { vt with ps := .csi CsiAcc.empty }
     else { vt with ps := .ground }
   | .utf8 need acc =>
-    if 0x80 ≤ b ∧ b ≤ 0xbf then
+    if 0x80 ≤ b.toNat ∧ b.toNat ≤ 0xbf then
       let acc' := acc * 64 + (b.toNat - 0x80)
       if need ≤ 1 then ({ vt with ps := .ground } : VTState).putGlyph acc'
       else { vt with ps := .utf8 (need - 1) acc' }
